@@ -105,7 +105,8 @@ func (ym YamlMap) GetValue(key string) *YamlNode {
 func (ym *YamlMap) setValue(item *YamlKeyValue) {
 	for i := range ym.Items {
 		if ym.Items[i].Key.Value == item.Key.Value {
-			ym.Items[i].Value = item.Value
+			// replace the entry: the old one may be shared with the map this one was cloned from
+			ym.Items[i] = &YamlKeyValue{Key: ym.Items[i].Key, Value: item.Value}
 			return
 		}
 	}
